@@ -68,3 +68,11 @@ Example C08_nonvacuous :
   filter (fun l => match l with LEnter _ _ _ | LHook _ _ => true | _ => false end) ls =
     [LHook 0 0; LEnter 0 0 (CtxId 1); LHook 0 3; LHook 1 0; LHook 1 3].
 Proof. vm_compute. auto. Qed.
+
+(* cancellation is permanent: once a context is cancelled it stays cancelled, over every schedule - so a context that was
+   already cancelled when PublishContext was called is cancelled at every later per-handler check of that publish
+   (C08_cancelled_decisions, C08_async_cancelled), and no handler of that publish starts *)
+Theorem C08_cancellation_is_permanent : forall P cfg c sched s,
+  is_cancelled s c = true -> is_cancelled (fst (run P cfg s sched)) c = true.
+Proof. exact cancellation_is_permanent_run. Qed.
+Print Assumptions C08_cancellation_is_permanent.
